@@ -254,3 +254,11 @@ Fixpoint prefix_eqb (a b : list sample) : bool :=
   | x :: xs, y :: ys => sample_eqb x y && prefix_eqb xs ys
   | _ :: _, [] => false
   end.
+
+(* ------------------------------------------------------------------ the request channel (production wiring) *)
+(* `_DataPipeline._data_sourcing_request_sender()` gives the actor a Broadcast receiver of [cap] slots;
+   `Broadcast.send` never suspends, so requests issued back to back queue up before the actor runs:
+   `_enqueue` drops the OLDEST entry of a full receiver. *)
+Definition req_enqueue {A} (cap : nat) (q : list A) (r : A) : list A :=
+  if (cap <=? length q)%nat then tl q ++ [r] else q ++ [r].
+Definition req_burst {A} (cap : nat) (q : list A) (rs : list A) : list A := fold_left (req_enqueue cap) rs q.
